@@ -1,7 +1,7 @@
 #!/bin/sh
 # The repository's own test suite with the verif build tag OFF (same command as BASELINE.json).
 cd /repo || exit 2
-export GOFLAGS=-mod=mod GOPROXY=off GOSUMDB=off
+export GOFLAGS=-mod=mod GOPROXY=off
 rc=0
 for m in . ./website; do
   (cd /repo/$m && go test -vet=off -count=1 -timeout 25m ./...) || rc=1
